@@ -2,7 +2,7 @@
    quantify over all event sequences. *)
 From Coq Require Import Lia.
 From AV Require Import Base.Util Model.Consumer Proofs.ConsumerBase Proofs.ConsumerFrame Proofs.ConsumerC13 Proofs.ConsumerStop
-  Proofs.ConsumerC13Top Proofs.ConsumerInv.
+  Proofs.ConsumerC13Top Proofs.ConsumerInv Proofs.ConsumerShut.
 Open Scope Z_scope.
 
 (* ---- the auto-commit LoopingCall is "running its callback" (Some false) only inside the tick event ---- *)
@@ -226,3 +226,16 @@ Proof.
   exact (stop_quiescent_reachable _ _ _ _ H1 E Hft Hs).
 Qed.
 End Run.
+
+(* ---- C13_shutdown_commits over whole runs: every successful outcome of a shutdown Deferred, in every run, carries
+   last_committed = last_processed when a group is configured (or nothing was ever processed) ---- *)
+Theorem shutdown_commits_run fuel g : forall evs s, c_group (s_cf s) = g -> s_inapi s = 0 -> s_pend s = [] ->
+  forallb (fun t => fuel_ok (t_out t)) (run_steps fuel s evs) = true ->
+  forallb (fun t => forallb (shutd_ok g) (t_out t)) (run_steps fuel s evs) = true.
+Proof.
+  induction evs as [|e evs IH]; intros s Hg Hi Hp Hf; cbn [run_steps] in *; [reflexivity|].
+  destruct (step fuel s e) as [s1 o] eqn:E. cbn [forallb t_out] in *. apply andb_prop in Hf. destruct Hf as (Hf1 & Hf2).
+  destruct (shutdown_commits_step _ _ _ _ _ Hp E Hf1) as (G & C).
+  destruct (start_once_every_step _ _ _ _ _ Hi Hp E) as (_ & Hi' & Hp').
+  rewrite Hg in G. rewrite G. cbn [andb]. apply IH; try assumption. rewrite C. exact Hg.
+Qed.
